@@ -5,12 +5,12 @@
 # checks (which have /repo and /verif paths compiled in) run unmodified while work goes on outside.
 set -u
 RES="$1"; shift
-mkdir -p "$RES" /tmp/evalroot
-rsync -a --delete --exclude target /repo/ /tmp/evalroot/repo/
-rsync -a --delete --exclude 'scratch' /verif/ /tmp/evalroot/verif/
+mkdir -p "$RES" ${EVALROOT:-/tmp/evalroot}
+rsync -a --delete --exclude target /repo/ ${EVALROOT:-/tmp/evalroot}/repo/
+rsync -a --delete --exclude 'scratch' /verif/ ${EVALROOT:-/tmp/evalroot}/verif/
 SEEDS="$*"
 unshare -m bash -c '
-  mount --bind /tmp/evalroot/repo /repo && mount --bind /tmp/evalroot/verif /verif || exit 2
+  mount --bind ${EVALROOT:-/tmp/evalroot}/repo /repo && mount --bind ${EVALROOT:-/tmp/evalroot}/verif /verif || exit 2
   cd /verif
   for seed in '"$SEEDS"'; do
     id=${seed%-*}; n=${seed#*-}
